@@ -314,7 +314,8 @@ func c18(r *mon.Run) {
 				g := &navGen{r: rng, lower: rng.Bool()}
 				expr = gen.Spell(gen.Func(gen.Pick(rng, fns), g.expr(reflect.TypeOf(goDoc), 1)))
 			default:
-				expr = gen.Pick(rng, []string{"_u", "lower", "BaseName", "baseName", "Base", "Base.BaseNum", "S", "Leaf.S", "Title", "*", "@.*", "[_u, lower, BaseName]", "keys(@)", "values(@)", "to_string(@)", "type(@)", "length(@)", "BaseNum > `1`", "[?BaseName]", "to_array(@)[0].BaseName", "not_null(BaseName, Title)", "merge(@, @)"})
+				expr = gen.Pick(rng, []string{"_u", "lower", "BaseName", "baseName", "Base", "Base.BaseNum", "S", "Leaf.S", "Title", "*", "@.*", "[_u, lower, BaseName]", "keys(@)", "values(@)", "to_string(@)", "type(@)", "length(@)", "BaseNum > `1`", "[?BaseName]", "to_array(@)[0].BaseName", "not_null(BaseName, Title)", "merge(@, @)",
+					"\"\"", "@.\"\"", "[\"\"]", "Leaf.\"\"", "*.\"\"", "[?\"\"]", "{a: \"\"}", "\"\" || Title", "\"\u00c9lan\"", "\"\u00e9lan\"", "\"\u03a9mega\"", "\" \"", "\"a b\"", "\"0\""})
 			}
 			t.Eval()
 			o := apiSearch(expr, goDoc)
@@ -326,7 +327,41 @@ func c18(r *mon.Run) {
 				t.Nontrivial("h:" + expr)
 			}
 		}}
-	r.Exec(eq, paths, safety, hostile)
+	// identifiers that are empty, contain blanks or start with a non-ASCII letter; each expression is spelled
+	// consistently in one capitalisation (upper: as the Go field names; lower: first letters lower-cased)
+	oddUpper := []string{"\"\"", "In.\"\"", "Ins[*].\"\"", "PIns[].\"\"", "[\"\", ID]", "{a: \"\"}", "Ins[?\"\"]", "PIn.\"\"", "Uni.\"\"", "\"\u00c9lan\"", "Uni.\"\u00c9lan\"", "PUni.\"\u00d1u\"",
+		"Uni.\"\u03a9mega\"", "[Uni.\"\u00c9lan\", Uni.Z]", "Uni.* | length(@)", "\" \"", "In.\"Name \"", "\"I\"", "In.\"N\"", "\"1\"", "\"_\"", "PUni.Z", "Ins[*].Uni", "[Uni, PUni][*].\"\u00d1u\""}
+	oddLower := []string{"uni.\"\u00e9lan\"", "pUni.\"\u00f1u\"", "uni.\"\u03c9mega\"", "\"iD\"", "\"i\"", "in.\"n\"", "[uni.\"\u00e9lan\", uni.z]", "uni.* | length(@)", "pUni.z", "[uni, pUni][*].\"\u00f1u\"", "in.\"name \"", "\"\u00e9lan\""}
+	odd := append(append([]string{}, oddUpper...), oddLower...)
+	oddw := mon.Workload{Name: "odd-identifiers-on-structs", N: len(odd) * 8,
+		Do: func(i int, t *mon.Tally) {
+			expr := odd[i%len(odd)]
+			lower := i%len(odd) >= len(oddUpper)
+			form := (i / len(odd)) % 4
+			goDoc := docs.StructDoc(gen.DeriveN(r.Seed, "c18odd", i/len(odd)), form)
+			if form >= 2 {
+				expr = "[0]." + expr
+			}
+			t.Eval()
+			og := apiSearch(expr, docs.ToGeneric(goDoc, lower))
+			os := apiSearch(expr, goDoc)
+			if os.Panicked {
+				r.Violate(&mon.Violation{Workload: "odd-identifiers-on-structs", Index: i, API: "Search", Expr: expr, DocDesc: clipStr(mon.Snapshot(goDoc), 300), Expected: "no panic; generic form gives " + og.String(), Observed: os.String(), Detail: os.Stack, Class: "odd identifier: panic"})
+				return
+			}
+			if og.Panicked || og.Err != nil || os.Err != nil {
+				return
+			}
+			if norm := docs.ToGeneric(os.V, lower); !mon.JSONEqual(og.V, norm) {
+				r.Violate(&mon.Violation{Workload: "odd-identifiers-on-structs", Index: i, API: "Search", Expr: expr, DocDesc: "struct form of " + clipStr(mon.Show(docs.ToGeneric(goDoc, lower)), 300), Expected: "same as on the equivalent generic document: " + og.String(),
+					Observed: "value (JSON-normalised): " + mon.Show(norm), Class: "odd identifier: value differs"})
+				return
+			}
+			if og.V != nil {
+				t.Nontrivial("odd:" + expr)
+			}
+		}}
+	r.Exec(eq, paths, oddw, safety, hostile)
 }
 
 func pickKey(operand string) string {
